@@ -433,8 +433,13 @@ def _do_job(job):
         rc, err = run_impl(fam["name"], args, ip, timeout=fam.get("timeout", 7200))
     except subprocess.TimeoutExpired:
         return (fam, tag), None, "harness timed out"
+    crash = None
     if rc != 0:
-        return (fam, tag), None, "harness rc=%d %s" % (rc, err[-300:])
+        # the harness died (abort, stack overflow, watchdog exit): keep what it flushed - a `V` line
+        # printed before the crash is a concrete finding - and report the crash as a run error too
+        crash = "harness rc=%d %s" % (rc, err[-300:])
+        if not os.path.exists(ip) or os.path.getsize(ip) == 0:
+            return (fam, tag), None, crash
     mpath = None
     if model_ok:
         try:
@@ -452,7 +457,7 @@ def _do_job(job):
             os.remove(p)
         except OSError:
             pass
-    return (fam, tag), res, None
+    return (fam, tag), res, crash
 
 
 def family_runs(spec, tier, seed):
@@ -525,6 +530,7 @@ def main(argv):
             for (fam, tag), res, err in ex.map(_do_job, jobs):
                 if err:
                     run_errors.append("%s/%s: %s" % (fam["name"], tag, err))
+                if res is None:
                     continue
                 totals["cases"] += res["cases"]
                 totals["ops"] += res["ops"]
